@@ -349,3 +349,59 @@ func genPartialCoverProbe(r *rand.Rand, cu *cachedUni) *gen.Op {
 	}
 	return cands[r.Intn(len(cands))]
 }
+
+// genSharedDependantProbe builds an operation with two root fields answered by two different services whose
+// selections both need, at the same depth, a third party: fields of the returned entities that one and the same
+// service owns.  That service appears at one plan level and is to be asked in one call.
+func genSharedDependantProbe(r *rand.Rand, u *gen.Universe) *gen.Op {
+	noRequired := func(f *gen.Field) bool {
+		for _, a := range f.Args {
+			if strings.HasSuffix(a.Type, "!") && a.Default == "" {
+				return false
+			}
+		}
+		return true
+	}
+	type half struct {
+		q    *gen.Field
+		leaf map[int][]string // owner -> scalar leaves of the returned entity owned by it
+	}
+	var halves []half
+	for _, q := range u.Query {
+		e := u.Type(gen.BaseName(q.Type))
+		if q.Name == "node" || !noRequired(q) || e == nil || e.Kind != gen.KEntity {
+			continue
+		}
+		h := half{q: q, leaf: map[int][]string{}}
+		for _, f := range e.Fields {
+			if f.Name == "id" || !noRequired(f) || f.Owner == q.Owner {
+				continue
+			}
+			if tt := u.Type(gen.BaseName(f.Type)); tt != nil && tt.Kind != gen.KEnum && tt.Kind != gen.KScalar {
+				continue
+			}
+			h.leaf[f.Owner] = append(h.leaf[f.Owner], f.Name)
+		}
+		if len(h.leaf) > 0 {
+			halves = append(halves, h)
+		}
+	}
+	var cands []string
+	for i, a := range halves {
+		for _, b := range halves[i+1:] {
+			if a.q.Owner == b.q.Owner || a.q.Name == b.q.Name {
+				continue
+			}
+			for owner, la := range a.leaf {
+				if lb, ok := b.leaf[owner]; ok {
+					cands = append(cands, "{ "+a.q.Name+" { "+la[r.Intn(len(la))]+" } "+b.q.Name+" { "+lb[r.Intn(len(lb))]+" } }")
+				}
+			}
+		}
+	}
+	if len(cands) == 0 {
+		return nil
+	}
+	sort.Strings(cands)
+	return &gen.Op{Query: cands[r.Intn(len(cands))], Tags: []string{"probe:shared-dependant"}}
+}
